@@ -83,31 +83,51 @@ inductive Geom where
   | ok (h : Hunk) (how : How)
   deriving DecidableEq, Repr
 
+/-- `line_after` when the text before and after the match is decoded separately (the shape of
+    seeded/_fixes/c03_line_context_decoded_parts.diff): `line.get(col..col+len) == Some(content)` is tested on the RAW line,
+    then `lossy(line[..col]) + replace + lossy(line[col+len..])`; the `find` fallback on the decoded line remains for a
+    match that does not fit the line. -/
+def lineAfterParts (l ls : Bytes) (col : Nat) (text repl : Bytes) : Bytes × How :=
+  if decide (col + text.length ≤ l.length) && text.isPrefixOf (l.drop col) then
+    (Utf8.lossy (l.take col) ++ repl ++ Utf8.lossy (l.drop (col + text.length)), .splice)
+  else
+    match B.find ls text with
+    | some p => (spliceAt ls p text.length repl, .fallback)
+    | none => (ls, .unchanged)
+
 /-- one iteration of the `for m in matches` loop of `generate_hunks`, geometry only.
-    `colIsByte`: is the position at which the match is spliced into the line the match's byte column (the code as it
-    is; extracted from scanner.rs into `Gen.lineAfterColumnIsByte` on every run) or its character offset (a byte/char
-    mix-up: the slice then misses whenever a multi-byte character precedes the match, and the `find` fallback takes over)? -/
-def hunkGeomG (colIsByte : Bool) (content : Bytes) (line col start stop : Nat) (text repl : Bytes) : Geom :=
+    `colIsByte`: is the position at which the match is spliced into the line the match's byte column (extracted from
+    scanner.rs into `Gen.lineAfterColumnIsByte` on every run) or its character offset (a byte/char mix-up: the slice then
+    misses whenever a multi-byte character precedes the match, and the `find` fallback takes over)?
+    `parts`: are the text before and after the match decoded separately (`Gen.lineAfterDecodesParts`), or is the raw byte
+    column applied to the lossily decoded line (the code as it is; wrong when invalid UTF-8 precedes the match)? -/
+def hunkGeomG (colIsByte parts : Bool) (content : Bytes) (line col start stop : Nat) (text repl : Bytes) : Geom :=
   match lineOf content line with
   | none => .skip
   | some l =>
     let ls := Utf8.lossy l
-    let at_ := if colIsByte then col else charOffset ls col
-    match lineAfter ls at_ text repl with
-    | none => .panic
-    | some (la, how) =>
-      .ok { line := line, byteOffset := col, charOffset := charOffset ls col, start := start, stop := stop,
-            content := text, replace := repl, lineBefore := ls, lineAfter := la } how
+    if parts then
+      let r := lineAfterParts l ls col text repl
+      .ok { line := line, byteOffset := col,
+            charOffset := if col ≤ l.length then Utf8.charCount (Utf8.lossy (l.take col)) else charOffset ls col,
+            start := start, stop := stop, content := text, replace := repl, lineBefore := ls, lineAfter := r.1 } r.2
+    else
+      let at_ := if colIsByte then col else charOffset ls col
+      match lineAfter ls at_ text repl with
+      | none => .panic
+      | some (la, how) =>
+        .ok { line := line, byteOffset := col, charOffset := charOffset ls col, start := start, stop := stop,
+              content := text, replace := repl, lineBefore := ls, lineAfter := la } how
 
-/-- the planner that splices at the byte column -/
-abbrev hunkGeom := hunkGeomG true
+/-- the planner that applies the byte column to the decoded line (the code as it is) -/
+abbrev hunkGeom := hunkGeomG true false
 
 /-- geometry from the span alone, line and column computed as `find_matches` /
     `find_enhanced_matches` compute them -/
-def hunkGeomAtG (colIsByte : Bool) (content : Bytes) (start stop : Nat) (text repl : Bytes) : Geom :=
-  hunkGeomG colIsByte content (Matcher.lineNo content start) (start - Matcher.lineStart content start) start stop text repl
+def hunkGeomAtG (colIsByte parts : Bool) (content : Bytes) (start stop : Nat) (text repl : Bytes) : Geom :=
+  hunkGeomG colIsByte parts content (Matcher.lineNo content start) (start - Matcher.lineStart content start) start stop text repl
 
-abbrev hunkGeomAt := hunkGeomAtG true
+abbrev hunkGeomAt := hunkGeomAtG true false
 
 -- diff preview ---------------------------------------------------------------------------------
 
@@ -185,6 +205,13 @@ def literalLines (fileRelative : Bool) (pat repl : Bytes) : List (Nat × Bytes) 
 /-- `process_file_content(…, is_regex = false, …)` on one file's bytes -/
 def planLiteral (fileRelative : Bool) (file pat repl : Bytes) : List Hunk :=
   literalLines fileRelative pat repl (strLines (Utf8.lossy file)) 1
+
+/-- … with the treatment of files that are not valid UTF-8 as a second parameter: `skipInvalid = false` searches the lossily
+    decoded text (the code as it is: offsets after an invalid byte are not file offsets), `skipInvalid = true` leaves such a
+    file out of the plan (seeded/_fixes/c03_replace_skip_non_utf8.diff; apply reads files as UTF-8 text and could not edit
+    it anyway).  `Gen.replaceSkipsInvalidUtf8` says which one scanner.rs does. -/
+def planLiteralS (fileRelative skipInvalid : Bool) (file pat repl : Bytes) : List Hunk :=
+  if skipInvalid && !Utf8.valid file then [] else planLiteral fileRelative file pat repl
 
 -- statistics -----------------------------------------------------------------------------------
 
